@@ -284,4 +284,24 @@ Section Exec.
     fold_left (fun m g => mmul K (fused_gate_matrix fq g) m) gs (eye (2 ^ length fq)).
 
   Definition unitary (n : nat) (gs : list gate) : mat T := matrix_fused (seq 0 n) gs.
+
+  (* ---------------------------------------------------------------- queues that contain FusedGates *)
+  (* the queue of a circuit returned by Circuit.fuse: elementary gates and
+     FusedGate(target_qubits (sorted), gates) *)
+  Inductive qitem : Type := QGate (g : gate) | QFused (fq : list nat) (gs : list gate).
+
+  (* FusedGate.apply = apply_gate with matrix_fused(fgate) on fgate.target_qubits, not controlled *)
+  Definition apply_item (n : nat) (it : qitem) (state : vec T) : vec T :=
+    match it with
+    | QGate g => apply_gate n g state
+    | QFused fq gs => apply_gate_plain n fq (matrix_fused fq gs) state
+    end.
+  Definition execute_queue (n : nat) (q : list qitem) (state : vec T) : vec T :=
+    fold_left (fun s it => apply_item n it s) q state.
+
+  (* Circuit.unitary:  `elif not isinstance(gate, (gates.SpecialGate, gates.M)): fgate.append(gate)`;
+     FusedGate is a SpecialGate, so it is skipped *)
+  Definition unitary_queue (n : nat) (q : list qitem) : mat T :=
+    matrix_fused (seq 0 n)
+      (flat_map (fun it => match it with QGate g => [g] | QFused _ _ => [] end) q).
 End Exec.
